@@ -510,6 +510,7 @@ def run(ctx):
     # run in batches so that one hang does not hide the remaining cases
     pos = 0
     pgot = []
+    nfail_p = 0
     while pos < len(plines):
         rc, out, err = core.run_lines(exe, plines[pos:], timeout=120 + len(plines), env=core.qenv(1, 1, stack=65536), args=["live"])
         body = [o for o in out if o.startswith("P")]
@@ -518,6 +519,9 @@ def run(ctx):
         if pos < len(plines) and (rc != 0 or len(body) == 0):
             pgot.append(None)       # this case hung / crashed
             pos += 1
+            nfail_p += 1
+            if nfail_p >= 2:        # two hangs are enough evidence; do not spend 15 s on each remaining case
+                break
         if not out or not out[0].startswith("H "):
             raise core.BuildError("c08 live harness did not start on 1x1: rc=%s %s" % (rc, err[-400:]))
     for l, exp, got in zip(plines, pexp, pgot):
